@@ -17,6 +17,27 @@ from ..restrictions import boolean, packages, restriction, values
 from ..restrictions.util import collect_package_restrictions
 
 
+def _positive_only(restrict):
+    """True if every category/package restriction reachable in restrict is used as a positive constraint."""
+    if isinstance(restrict, atom):
+        return True
+    if isinstance(restrict, boolean.base):
+        if restrict.negate or not isinstance(
+            restrict, (boolean.AndRestriction, boolean.OrRestriction)
+        ):
+            return not any(
+                True
+                for _ in collect_package_restrictions(restrict, ("category", "package"))
+            )
+        return all(_positive_only(x) for x in restrict.restrictions)
+    if isinstance(restrict, packages.PackageRestriction) and restrict.attr in (
+        "category",
+        "package",
+    ):
+        return not restrict.negate and isinstance(restrict.restriction, values.base)
+    return True
+
+
 class CategoryLazyFrozenSet:
     """Lazy frozenset for holding categories"""
 
@@ -318,6 +339,15 @@ class tree:
         # full expansion
         if not isinstance(restrict, boolean.base) or isinstance(restrict, atom):
             return self._fast_identify_candidates(restrict, sorter)
+        if not _positive_only(restrict):
+            # negation / counting nodes over category or package matchers: no safe pruning
+            if sorter is iter:
+                return self.versions
+            return (
+                (c, p)
+                for c in sorter(self.categories)
+                for p in sorter(self.packages.get(c, ()))
+            )
         dsolutions = [
             (
                 [c.restriction for c in collect_package_restrictions(x, ("category",))],
